@@ -45,6 +45,11 @@ claimed.update({
    text="Real listener.Listener with the real RTSP and HTTP matchers over a simulated root listener; 1-3 connections whose first line comes from the method x target x version grammar or is clearly neither, written in tape-chosen segments with fake-clock pauses around the 15 s sniff timeout, read by stub services with 1..8192-byte buffers; oracle: reference classifier from the statement, byte stream identical and complete from the first byte, exactly one service or closed.",
    note="Trusted: sim.Listener/sim.Conn, the reference classifier; first lines the statement leaves undefined (known method name followed by other letters; first bytes incomplete at the timeout) are not judged for routing, only for byte integrity."),
 })
+claimed.update({
+ "C06": dict(level="exploration", ref="§5 C06",
+   text="Access units packetised by an independent RFC 6184/7798/3640 packetiser (tape-chosen aggregation, fragment sizes, sequence numbers across the 16-bit wrap) sent through a faulty datagram link (loss, burst loss, duplication, adjacent swap, displacement up to 3; fault-free runs separate) into the real rtp.Demuxer; oracle: equality with a reference depacketiser run over the arrival sequence (bytes, order, nothing invented, incomplete fragmented units yield nothing), one PTS per RTP timestamp, PTS differences proportional to timestamp differences.",
+   note="Trusted: the reference packetiser/depacketiser in harness/oracle (written from the RFCs), SDP fixtures with parameter sets. Not generated: NAL units shorter than 3 bytes, filler NALs, a sender report arriving mid-stream, 32-bit RTP timestamp wrap."),
+})
 pending = {
 }
 not_applicable = {
